@@ -425,18 +425,6 @@ Qed.
 Lemma align_r_short n idx : length idx <= n -> align_r n idx = repeat 0 (n - length idx) ++ idx.
 Proof. intros H. unfold align_r. replace (length idx - n) with 0 by lia. reflexivity. Qed.
 
-(* The in-place branch reads the operator element of the index SHIFTED by one axis:
-   operator axis j+1 is matched with state axis j (right-aligned, the phase-state axis being
-   consumed as a core dimension of matmul) *)
-Lemma mp_inplace_op_spec A B bidx : length A <= length B -> length bidx = length B ->
-  mp_inplace_op A B bidx = aproj A (0 :: bidx).
-Proof.
-  intros L Lb. unfold mp_inplace_op, np_proj. rewrite ins_length by auto.
-  rewrite align_r_short by lia. replace (S (length B) - length bidx) with 1 by lia. simpl repeat. simpl app.
-  rewrite firstn_map2. unfold ins. rewrite firstn_app, Nat.sub_diag, firstn_all. simpl firstn at 2. rewrite app_nil_r.
-  rewrite map2_firstn_r. rewrite aproj_long by (simpl; lia). reflexivity.
-Qed.
-
 Lemma np_bdim_to a b : np_bdim a b = Some b <-> (a = 1 \/ a = b).
 Proof.
   unfold np_bdim, bc_dim. destruct (Nat.eqb_spec a b), (Nat.eqb_spec a 1), (Nat.eqb_spec b a), (Nat.eqb_spec b 1);
@@ -463,35 +451,45 @@ Proof.
   - destruct B as [|b B]; simpl in *; [lia|]. destruct H. split; auto. apply IH; auto. lia.
 Qed.
 
-(* exactly when numpy accepts the in-place matmul (no ValueError):
-   the FIRST operator axis is a singleton and operator axis j+1 fits state axis j *)
-Theorem mp_inplace_spec a A B : length (a :: A) <= length B ->
-  (mp_inplace_ok (a :: A) B = true <-> a = 1 /\ dom A B).
+Lemma removelast_snoc {A} (l : list A) a : removelast (l ++ [a]) = l.
+Proof. induction l; simpl; auto. destruct (l ++ [a]) eqn:E; [destruct l; discriminate|]. now rewrite IHl. Qed.
+
+Lemma removelast_ins A B : removelast (ins A B) = pad_app (length B) A.
 Proof.
-  intros L. unfold mp_inplace_ok, np_bshape.
-  assert (E1 : length (ins (a :: A) B) = S (length B)) by (now apply ins_length).
-  rewrite E1. replace (Nat.max (S (length B)) (length B)) with (S (length B)) by lia.
-  rewrite pad_pre_id by auto.
-  assert (E2 : pad_pre (S (length B)) B = 1 :: B).
-  { unfold pad_pre. replace (S (length B) - length B) with 1 by lia. reflexivity. }
-  rewrite E2. rewrite ins_le by auto.
-  assert (E3 : pad_app (length B) (a :: A) ++ [1] = a :: pad_app (length B) A).
-  { unfold pad_app. simpl in *. f_equal. rewrite <- app_assoc. f_equal.
-    replace (length B - length A) with (S (length B - S (length A))) by lia. now rewrite repeat_snoc. }
-  rewrite E3. simpl map2. simpl sequence. rewrite np_bdim_1_r.
-  simpl in L.
-  assert (LP : length (pad_app (length B) A) = length B) by (apply pad_app_length; lia).
+  unfold ins, pad_app.
+  replace (Nat.max 1 (S (length B) - length A)) with (S (length B - length A)) by lia.
+  rewrite repeat_snoc, app_assoc. apply removelast_snoc.
+Qed.
+
+(* the in-place operand is the operator array with only the missing batch axes *)
+Lemma mp_bmat_fixed A B : mp_bmat A B = pad_app (length B) A.
+Proof. unfold mp_bmat. apply removelast_ins. Qed.
+
+(* in-place matmul, every |A| <= |B|: numpy accepts it (no ValueError, no fall-back)
+   exactly when every operator axis is a singleton or has the size of the SAME state axis ... *)
+Theorem mp_inplace_fixed_spec A B : length A <= length B ->
+  (mp_inplace_ok A B = true <-> dom A B).
+Proof.
+  intros L. unfold mp_inplace_ok, np_bshape. rewrite mp_bmat_fixed.
+  assert (LP : length (pad_app (length B) A) = length B) by (now apply pad_app_length).
+  rewrite LP, Nat.max_id. rewrite !pad_pre_id by auto.
   destruct (sequence (map2 np_bdim (pad_app (length B) A) B)) as [r|] eqn:Q.
   - pose proof (seq_map2_dom _ _ _ LP Q) as (_ & _ & Lr).
-    unfold np_out_ok. simpl length. rewrite Lr. replace (S (length B) - length B) with 1 by lia. simpl repeat. simpl app.
-    destruct (Nat.leb_spec (length B) (S (length B))) as [_|HH]; [|lia]. simpl andb.
-    rewrite shape_eqb_eq. split.
-    + intros H. inversion H; subst. split; auto.
-      apply (dom_pad_app (length B)); auto; try lia. apply seq_map2_to; auto.
-    + intros [-> D]. f_equal. apply (dom_pad_app (length B)) in D; auto; try lia.
-      apply seq_map2_to in D; auto. congruence.
-  - split; [discriminate|]. intros [-> D]. apply (dom_pad_app (length B)) in D; auto; try lia.
+    unfold np_out_ok. rewrite Lr, Nat.sub_diag, Nat.leb_refl. simpl. rewrite shape_eqb_eq. split.
+    + intros ->. apply (dom_pad_app (length B)); auto. now apply seq_map2_to.
+    + intros D. apply (dom_pad_app (length B)) in D; auto. apply seq_map2_to in D; auto. congruence.
+  - split; [discriminate|]. intros D. apply (dom_pad_app (length B)) in D; auto.
     apply seq_map2_to in D; auto. congruence.
+Qed.
+
+(* ... and it then reads the append-aligned operator element at every batch index *)
+Theorem mp_inplace_fixed_reads A B bidx : length A <= length B -> length bidx = length B ->
+  mp_inplace_op A B bidx = aproj A bidx.
+Proof.
+  intros L Lb. unfold mp_inplace_op. rewrite mp_bmat_fixed.
+  rewrite np_proj_full by (rewrite pad_app_length; auto).
+  rewrite firstn_map2. unfold pad_app. rewrite firstn_app, Nat.sub_diag, firstn_all. simpl. rewrite app_nil_r.
+  rewrite map2_firstn_r. now rewrite aproj_long by lia.
 Qed.
 
 Lemma all_ones_map2 A x y : all_ones A = true -> length A <= length x -> length A <= length y ->
@@ -507,53 +505,12 @@ Proof.
   apply andb_true_iff in H as [H1 H2]. destruct a as [|[|a]]; try discriminate. split; auto. apply IH; auto. lia.
 Qed.
 
-(* When accepted, the in-place result is the append-aligned one for every index of the state
-   iff the operator is unbatched (all axes singleton).  Otherwise an index exists where the
-   coefficient of ANOTHER grid point is applied, silently. *)
-Theorem mp_inplace_correct_iff a A B :
-  length (a :: A) <= length B -> pos B -> mp_inplace_ok (a :: A) B = true ->
-  ((forall bidx, valid B bidx -> mp_inplace_op (a :: A) B bidx = aproj (a :: A) bidx)
-   <-> all_ones (a :: A) = true).
-Proof.
-  intros L P OK. apply mp_inplace_spec in OK as [-> D]; auto. split.
-  - intros H. simpl.
-    (* find the first non-singleton axis and an index that separates the two projections *)
-    assert (G : forall A B, dom A B -> pos B -> length A < length B ->
-      (forall bidx, valid B bidx -> map2 sel A bidx = map2 sel A (tl bidx)) -> all_ones A = true).
-    { clear. intros A B D P L H. revert B D P L H.
-      induction A as [|x A IH]; intros [|b B] D P L H; simpl in *; auto; try tauto; try lia.
-      destruct D as [D1 D2]. inversion P; subst.
-      assert (Z : forall B, pos B -> valid B (repeat 0 (length B))).
-      { clear. induction B; intros P; [constructor|]. inversion P; subst.
-        unfold valid. simpl. constructor; [lia|]. now apply IHB. }
-      destruct (Nat.eqb_spec 1 x) as [<-|N]; simpl.
-      - apply (IH B); auto; try lia. intros bidx V.
-        assert (V' : valid (b :: B) (0 :: bidx)) by (constructor; auto; lia).
-        specialize (H _ V'). simpl in H. destruct bidx as [|i t]; simpl in *.
-        + inversion V. subst. simpl in L. lia.
-        + inversion H. reflexivity.
-      - exfalso. destruct D1 as [|D1]; [congruence|]. subst x.
-        pose proof (Z B H3) as Hz.
-        assert (V' : valid (b :: B) (1 :: repeat 0 (length B))) by (constructor; auto; lia).
-        specialize (H _ V'). destruct B as [|b' B]; [simpl in L; lia|]. simpl in H.
-        inversion H. unfold sel in H1.
-        destruct (Nat.eqb_spec b 1); [congruence|]. discriminate. }
-    apply (G A B D P); [simpl in L; lia|].
-    intros bidx V. specialize (H bidx V). pose proof (valid_length _ _ V).
-    rewrite mp_inplace_op_spec in H by (simpl in *; lia).
-    rewrite !aproj_long in H by (simpl in *; lia).
-    destruct bidx as [|i t]; [simpl in *; lia|]. simpl in H. inversion H. simpl tl. assumption.
-  - intros H bidx V. pose proof (valid_length _ _ V).
-    rewrite mp_inplace_op_spec by (simpl in *; lia).
-    rewrite !aproj_long by (simpl in *; lia). apply all_ones_map2; auto; simpl in *; lia.
-Qed.
-
-(* the witness of DESIGN 9.14: a (1,2) matrix operator on a (2,2) state is accepted in place and
-   reads operator element (0,1) at state index (1,0) where append semantics demands (0,0) *)
-Lemma matrix_prod_inplace_refuted :
-  exists A B bidx, broadcastable true [B; A] = true /\ length A <= length B /\
-    mp_inplace_ok A B = true /\ mp_inplace_op A B bidx <> aproj A bidx.
-Proof. exists [1; 2], [2; 2], [1; 0]. vm_compute. repeat split; auto. discriminate. Qed.
+(* regression witnesses of the two repaired in-place defects: accepted in place, append-aligned *)
+Lemma matrix_prod_inplace_witnesses :
+  mp_inplace_ok [1; 2] [2; 2] = true /\ mp_inplace_op [1; 2] [2; 2] [1; 0] = [0; 0] /\
+  mp_inplace_ok [1; 1; 2] [2; 1; 2; 1] = true /\
+  mp_inplace_op [1; 1; 2] [2; 1; 2; 1] [1; 0; 1; 0] = [0; 0; 1].
+Proof. vm_compute. repeat split. Qed.
 
 (* out of reach of prepare (|A| > |B|): the element-wise product is then right-aligned *)
 Lemma prod_low_rank_refuted :
@@ -572,9 +529,9 @@ Proof.
 Qed.
 
 (* incompatible shapes: prepare raises, and so does the operator application *)
-Theorem incompatible_raises (S : ScalOps) q ns (o : vop S) (s : vsm S) :
+Theorem incompatible_raises (S : ScalOps) ns (o : vop S) (s : vsm S) :
   broadcastable true [bshape s; vshape o] = false ->
-  prepare (vshape o) (bshape s) = None /\ vapply q ns o s = None.
+  prepare (vshape o) (bshape s) = None /\ vapply ns o s = None.
 Proof. intros H. unfold vapply, prepare. rewrite H. auto. Qed.
 
 (* ... which is exactly: some axis (left-aligned) carries two different sizes other than 1 *)
@@ -609,14 +566,15 @@ Definition aligned (A B' : shape) (p : prodinfo) : Prop :=
   length (pi_shape p) = length B' /\ dom A (pi_shape p) /\ dom B' (pi_shape p) /\
   forall j, length j = length B' -> pi_op p j = aproj A j /\ pi_st p j = aproj B' j.
 
-Lemma removelast_snoc {A} (l : list A) a : removelast (l ++ [a]) = l.
-Proof. induction l; simpl; auto. destruct (l ++ [a]) eqn:E; [destruct l; discriminate|]. now rewrite IHl. Qed.
 
 (* scalar_prod and the fall-back matmul, any ranks |A| <= |B'|: append-aligned *)
-Lemma vprod_fallback_aligned m A B' ns p : length A <= length B' ->
-  vprod false m A B' ns = Some p -> aligned A B' p.
+Lemma prod_fallback_aligned A B' ns p : length A <= length B' ->
+  match prod_shape A B' ns with
+  | Some r => Some (mkPI (removelast r) (fun bidx => prod_op A B' (bidx ++ [0]))
+                         (fun bidx => removelast (prod_st B' ns (bidx ++ [0]))))
+  | None => None end = Some p -> aligned A B' p.
 Proof.
-  intros L. unfold vprod. simpl. rewrite prod_shape_le by auto.
+  intros L. rewrite prod_shape_le by auto.
   destruct (ashape A B') as [R|] eqn:E; [|discriminate]. intros H. inversion H; subst. clear H.
   destruct (ashape_dom _ _ _ L E) as (D1 & D2 & D3). unfold aligned. simpl.
   rewrite removelast_snoc. repeat split; auto.
@@ -624,41 +582,39 @@ Proof.
   - rewrite prod_st_aligned by auto. now rewrite removelast_snoc.
 Qed.
 
-Definition op_safe {S} (q : bool) (o : vop S) : Prop :=
-  q = false \/ vmat o = false \/ all_ones (vshape o) = true \/ hd 1 (vshape o) <> 1.
-
-Lemma vprod_aligned q m A B' ns p : length A <= length B' ->
-  (q = false \/ m = false \/ all_ones A = true \/ hd 1 A <> 1) ->
-  vprod q m A B' ns = Some p -> aligned A B' p.
+Lemma inplace_aligned A B' : length A <= length B' -> mp_inplace_ok A B' = true ->
+  aligned A B' (mkPI B' (mp_inplace_op A B') (np_proj B')).
 Proof.
-  intros L Sf. unfold vprod. destruct (q && m && mp_inplace_ok A B') eqn:E.
-  - apply andb_true_iff in E as [E E3]. apply andb_true_iff in E as [E1 E2]. subst.
-    destruct Sf as [|[|[Sf|Sf]]]; try discriminate.
-    + intros H. inversion H; subst. clear H. unfold aligned. simpl.
-      repeat split; auto using dom_refl, all_ones_dom.
-      * destruct A as [|a A]; [reflexivity|]. rewrite mp_inplace_op_spec by auto.
-        rewrite !aproj_long by (simpl in *; lia). apply all_ones_map2; auto; simpl in *; lia.
-      * rewrite np_proj_full by auto. now rewrite aproj_long by lia.
-    + destruct A as [|a A]; [simpl in Sf; congruence|].
-      apply mp_inplace_spec in E3 as [-> _]; auto. simpl in Sf. congruence.
-  - intros H. apply (vprod_fallback_aligned m A B' ns p L). unfold vprod. simpl. exact H.
+  intros L OK. apply mp_inplace_fixed_spec in OK; auto. unfold aligned. simpl.
+  repeat split; auto using dom_refl.
+  - now apply mp_inplace_fixed_reads.
+  - rewrite np_proj_full by auto. now rewrite aproj_long by lia.
+Qed.
+
+(* both branches of matrix_prod (and scalar_prod): append-aligned *)
+Lemma vprod_aligned m A B' ns p : length A <= length B' ->
+  vprod m A B' ns = Some p -> aligned A B' p.
+Proof.
+  intros L. unfold vprod. destruct (m && mp_inplace_ok A B') eqn:E.
+  - apply andb_true_iff in E as [_ E3]. intros H. inversion H; subst p. now apply inplace_aligned.
+  - apply prod_fallback_aligned; auto.
 Qed.
 
 (* ------------------------------------------------------------------ the vectorised run *)
 Section Stack.
 Variable S : ScalOps.
 
-Lemma vapply_spec q ns (o : vop S) (s s1 : vsm S) : op_safe q o -> vapply q ns o s = Some s1 ->
+Lemma vapply_spec ns (o : vop S) (s s1 : vsm S) : vapply ns o s = Some s1 ->
   length (bshape s) <= length (bshape s1) /\ dom (vshape o) (bshape s1) /\ dom (bshape s) (bshape s1) /\
   forall idx, length (bshape s1) <= length idx ->
     sget s1 (aproj (bshape s1) idx) =
     apply (vget o (aproj (vshape o) idx)) (sget s (aproj (bshape s) idx)).
 Proof.
-  intros Sf. unfold vapply. destruct (prepare (vshape o) (bshape s)) as [B'|] eqn:P; [|discriminate].
+  unfold vapply. destruct (prepare (vshape o) (bshape s)) as [B'|] eqn:P; [|discriminate].
   destruct (prepare_some _ _ _ P) as (L & X & EX).
-  destruct (vprod q (vmat o) (vshape o) B' ns) as [p|] eqn:V; [|discriminate].
+  destruct (vprod (vmat o) (vshape o) B' ns) as [p|] eqn:V; [|discriminate].
   intros H. inversion H; subst s1. clear H. simpl.
-  destruct (vprod_aligned _ _ _ _ _ _ L Sf V) as (A1 & A2 & A3 & A4).
+  destruct (vprod_aligned _ _ _ _ _ L V) as (A1 & A2 & A3 & A4).
   assert (LB : length (bshape s) <= length B') by (rewrite EX, app_length; lia).
   split; [lia|]. split; auto. split; [rewrite EX in A3; now apply dom_app_l in A3|].
   intros idx Li. set (j := aproj (pi_shape p) idx).
@@ -669,20 +625,18 @@ Proof.
 Qed.
 
 (* C07, states: every entry of the vectorised run is the scalar run (Model/Ops.run) with that
-   grid index's coefficients, started from that index's initial state.
-   q = false: the code without the in-place matmul branch -> unconditional.
-   q = true : the pinned tree -> for sequences whose batched MatrixOps cannot take the in-place
-   branch (first axis not a singleton) or are unbatched. *)
-Theorem vectorised_is_stack q ns (ops : list (vop S)) (s r : vsm S) :
-  List.Forall (op_safe q) ops -> vrun q ns ops s = Some r ->
+   grid index's coefficients, started from that index's initial state; every program, all ranks,
+   ScalarOp and MatrixOp (in-place and fall-back branch) *)
+Theorem vectorised_is_stack ns (ops : list (vop S)) (s r : vsm S) :
+  vrun ns ops s = Some r ->
   length (bshape s) <= length (bshape r) /\
   forall idx, valid (bshape r) idx ->
     sget r idx = run (scalar_ops ops idx) (sget s (aproj (bshape s) idx)).
 Proof.
-  revert s. induction ops as [|o ops IH]; intros s Sf H; simpl in *.
+  revert s. induction ops as [|o ops IH]; intros s H; simpl in *.
   - inversion H; subst. split; auto. intros idx V. now rewrite aproj_valid.
-  - inversion Sf; subst. destruct (vapply q ns o s) as [s1|] eqn:E; [|discriminate].
-    destruct (IH s1 H3 H) as [L1 IH']. destruct (vapply_spec _ _ _ _ _ H2 E) as (L0 & _ & _ & Hs).
+  - destruct (vapply ns o s) as [s1|] eqn:E; [|discriminate].
+    destruct (IH s1 H) as [L1 IH']. destruct (vapply_spec _ _ _ _ E) as (L0 & _ & _ & Hs).
     split; [lia|]. intros idx V. rewrite (IH' idx V).
     rewrite Hs by (apply valid_length in V; lia). reflexivity.
 Qed.
@@ -703,25 +657,25 @@ Proof.
   - destruct i; [destruct D as [[|] _]; congruence|]. destruct D. eapply IH; eauto.
 Qed.
 
-Lemma vapply_dom q ns (o : vop S) (s : vsm S) : dom (vshape o) (bshape s) ->
-  exists s1, vapply q ns o s = Some s1 /\ bshape s1 = bshape s.
+Lemma vapply_dom ns (o : vop S) (s : vsm S) : dom (vshape o) (bshape s) ->
+  exists s1, vapply ns o s = Some s1 /\ bshape s1 = bshape s.
 Proof.
   intros D. pose proof (dom_length _ _ D) as L. unfold vapply, prepare.
   rewrite (dom_broadcastable _ _ D). destruct (Nat.ltb_spec (length (bshape s)) (length (vshape o))); [lia|].
-  unfold vprod. destruct (q && vmat o && mp_inplace_ok (vshape o) (bshape s)).
+  unfold vprod. destruct (vmat o && mp_inplace_ok (vshape o) (bshape s)).
   - eexists. split; reflexivity.
   - rewrite prod_shape_le by auto. rewrite ashape_dom_id by auto. eexists. split; [reflexivity|].
     simpl. apply removelast_snoc.
 Qed.
 
-Theorem output_shape q ns (ops : list (vop S)) (s : vsm S) nacq :
+Theorem output_shape ns (ops : list (vop S)) (s : vsm S) nacq :
   List.Forall (fun o => dom (vshape o) (bshape s)) ops ->
-  exists r, vrun q ns ops s = Some r /\ bshape r = bshape s /\
+  exists r, vrun ns ops s = Some r /\ bshape r = bshape s /\
             simulate_shape nacq (bshape r) = nacq :: bshape s.
 Proof.
   revert s. induction ops as [|o ops IH]; intros s F; simpl.
   - eexists; repeat split; reflexivity.
-  - inversion F; subst. destruct (vapply_dom q ns o s H1) as (s1 & E & Es). rewrite E.
+  - inversion F; subst. destruct (vapply_dom ns o s H1) as (s1 & E & Es). rewrite E.
     rewrite <- Es in H2. destruct (IH s1 H2) as (r & R1 & R2 & R3). exists r. rewrite R1. unfold simulate_shape in *.
     repeat split; congruence.
 Qed.
@@ -758,31 +712,17 @@ Proof.
   exists R'. repeat split; auto. - now apply prod_op_aligned. - now apply prod_st_aligned.
 Qed.
 
-(* without the in-place matmul branch (always the fall-back form): unconditional *)
-Theorem vectorised_is_stack_noinplace (S : ScalOps) ns (ops : list (vop S)) (s r : vsm S) :
-  vrun false ns ops s = Some r ->
-  forall idx, valid (bshape r) idx ->
-    sget r idx = run (scalar_ops ops idx) (sget s (aproj (bshape s) idx)).
-Proof.
-  intros H. apply (vectorised_is_stack S false ns ops s r); auto.
-  apply List.Forall_forall. intros o _. now left.
-Qed.
-
-(* the pinned tree (in-place branch present): a (1,2) MatrixOp on a (2,2) state *)
-Definition wit_c (idx : list nat) : QI := if nth 1 idx 0 =? 0 then qr 1 1 else qr 2 1.
-Definition wit_ops : list (vop QIops) :=
-  [@mkVop QIops [1; 2] (fun idx => @OMatrix QIops (@mdiag QIops (@mk3 QIops (wit_c idx) (wit_c idx) (wit_c idx))) None) true].
-Definition wit_s : vsm QIops := @mkVsm QIops [2; 2] (fun _ => @init QIops (qr 1 1)).
-
-Theorem vectorised_refuted :
-  exists (ops : list (vop QIops)) s r idx,
-    vrun true 1 ops s = Some r /\ valid (bshape r) idx /\
-    sm_eqb (sget r idx) (run (scalar_ops ops idx) (sget s (aproj (bshape s) idx))) = false /\
-    (* the same input without the in-place branch agrees with the scalar run *)
-    (exists r', vrun false 1 ops s = Some r' /\
-       sm_eqb (sget r' idx) (run (scalar_ops ops idx) (sget s (aproj (bshape s) idx))) = true).
-Proof.
-  exists wit_ops, wit_s. eexists. exists [1; 0]. split; [reflexivity|]. split.
-  - repeat constructor.
-  - split; [vm_compute; reflexivity|]. eexists. split; [reflexivity|]. vm_compute. reflexivity.
-Qed.
+(* regression: the two former counterexamples now agree with the scalar run in the model
+   ((1,2) MatrixOp on a (2,2) state; (1,1,2) MatrixOp on a (2,1,2,1) state) *)
+Definition wit_c (ax : nat) (idx : list nat) : QI := if nth ax idx 0 =? 0 then qr 1 1 else qr 2 1.
+Definition wit_op (A : shape) (ax : nat) : vop QIops :=
+  @mkVop QIops A (fun idx => @OMatrix QIops (@mdiag QIops (@mk3 QIops (wit_c ax idx) (wit_c ax idx) (wit_c ax idx))) None) true.
+Definition wit_s (B : shape) : vsm QIops := @mkVsm QIops B (fun _ => @init QIops (qr 1 1)).
+Definition wit_ok (A : shape) (ax : nat) (B : shape) : bool :=
+  match vrun 1 [wit_op A ax] (wit_s B) with
+  | Some r => shape_eqb (bshape r) B &&
+              forallb (fun idx => sm_eqb (sget r idx) (run (scalar_ops [wit_op A ax] idx) (sget (wit_s B) idx))) (indices B)
+  | None => false
+  end.
+Lemma vectorised_witnesses : wit_ok [1; 2] 1 [2; 2] = true /\ wit_ok [1; 1; 2] 2 [2; 1; 2; 1] = true.
+Proof. vm_compute. auto. Qed.
